@@ -84,3 +84,152 @@ class SequentialGradStepArray(_Grad):
     self_schema = FD + "#nods"
     params = {"input_values": F1, "input_perturbations": F2, "step": F1}
     per_component = True
+
+
+# ============================================================================ DisciplineJacApprox._compute_variable_indices
+from pyvc import contract as C  # noqa: E402
+from pyvc.plug_c16 import OInt, TSel  # noqa: E402
+from pyvc.values import TTuple  # noqa: E402
+
+DJA = "gemseo.utils.derivatives.derivatives_approx.DisciplineJacApprox"
+SEL = TSel.dt
+start = z3.Function("cvi_start", z3.IntSort(), z3.IntSort())  # offset of the j-th variable in the flat input vector
+cnt = z3.Function("cvi_cnt", z3.IntSort(), z3.IntSort())  # number of components selected in the variables before the j-th one
+
+
+def _clean(t):
+    stack = [t]
+    while stack:
+        x = stack.pop()
+        if z3.is_quantifier(x) or not z3.is_app(x):
+            if not z3.is_var(x):
+                return False
+            continue
+        if x.decl().kind() in (z3.Z3_OP_ITE, z3.Z3_OP_AND, z3.Z3_OP_OR, z3.Z3_OP_NOT, z3.Z3_OP_EQ, z3.Z3_OP_STORE):
+            return False
+        stack.extend(x.children())
+    return True
+
+
+def FA(vs, body, patterns=()):
+    """ForAll with the given patterns when z3 accepts them (terms over stores / ite are not valid triggers), without otherwise."""
+    if patterns and all(_clean(p) for p in patterns):
+        try:
+            return z3.ForAll(vs, body, patterns=list(patterns))
+        except z3.Z3Exception:
+            pass
+    return z3.ForAll(vs, body)
+
+
+class _Spec:
+    """The selection of the j-th variable, normalised: nsel(j) components comp(j, 0..nsel(j)-1) of a variable of size(j) components."""
+
+    def __init__(self, c):
+        self.names, self.sizes, self.indices = c.old.variable_names, c.old.variable_sizes, c.old.indices
+        self.n = self.names.n
+
+    def name(self, j):
+        return self.names.elems[j]
+
+    def size(self, j):
+        return self.sizes.get(self.name(j))
+
+    def sel(self, j):
+        return self.indices.get(self.name(j))
+
+    def everything(self, j):
+        """No entry for the variable, Ellipsis or None: all its components."""
+        s = self.sel(j)
+        return z3.Or(z3.Not(self.indices.has(self.name(j))), SEL.is_sel_ellipsis(s), SEL.is_sel_none(s))
+
+    def _slice(self, j):
+        """slice(lo, hi) of range(size): first component and number of components (Python's clamping of negative / large bounds)."""
+        s, n = self.sel(j), self.size(j)
+        lo, hi = SEL.sel_lo(s), SEL.sel_hi(s)
+        a = z3.If(OInt.is_none(lo), z3.IntVal(0), OInt.dt.get(lo))
+        b = z3.If(OInt.is_none(hi), n, OInt.dt.get(hi))
+        a = z3.If(a < 0, z3.If(a + n < 0, 0, a + n), z3.If(a > n, n, a))
+        b = z3.If(b < 0, z3.If(b + n < 0, 0, b + n), z3.If(b > n, n, b))
+        return a, z3.If(b > a, b - a, 0)
+
+    def nsel(self, j):
+        s = self.sel(j)
+        return z3.If(self.everything(j), self.size(j),
+                     z3.If(SEL.is_sel_int(s), 1, z3.If(SEL.is_sel_list(s), TSel.list_n(s), self._slice(j)[1])))
+
+    def comp(self, j, t):
+        s = self.sel(j)
+        return z3.If(self.everything(j), t,
+                     z3.If(SEL.is_sel_int(s), SEL.sel_i(s), z3.If(SEL.is_sel_list(s), TSel.list_el(s)[t], self._slice(j)[0] + t)))
+
+
+def _offset_axioms(c):
+    sp = _Spec(c)
+    j = z3.Int("j!ax")
+    return [
+        ("start(0) = 0", start(0) == 0),
+        ("start(j+1) = start(j) + size(j)", FA([j], z3.Implies(j >= 0, start(j + 1) == start(j) + sp.size(j)), patterns=[start(j + 1)])),
+        ("cnt(0) = 0", cnt(0) == 0),
+        ("cnt(j+1) = cnt(j) + nsel(j)", FA([j], z3.Implies(j >= 0, cnt(j + 1) == cnt(j) + sp.nsel(j)), patterns=[cnt(j + 1)])),
+    ]
+
+
+def _is_selection(sp, term, j, shift):
+    """``term`` (a selection value) is the list of the nsel(j) components of variable j, each shifted by ``shift``."""
+    t = z3.Int("t!is")
+    return z3.And(SEL.is_sel_list(term), TSel.list_n(term) == sp.nsel(j),
+                  FA([t], z3.Implies(z3.And(0 <= t, t < sp.nsel(j)), TSel.list_el(term)[t] == shift + sp.comp(j, t)), patterns=[TSel.list_el(term)[t]]))
+
+
+def _cvi_inv(c, k):
+    sp = _Spec(c)
+    seq, d = c.locals["indices_sequence"], c.locals["names_to_indices"]
+    j = z3.Int("j!ci")
+    return [
+        ("offset-is-the-sum-of-the-full-sizes", c.locals["variable_position"] == start(k)),
+        ("one-index-list-per-variable", seq.n == k),
+        ("flat-indices-are-offset-plus-component", FA([j], z3.Implies(z3.And(0 <= j, j < k), _is_selection(sp, seq.elems[j], j, start(j))), patterns=[seq.elems[j]])),
+        ("components-per-name", FA([j], z3.Implies(z3.And(0 <= j, j < k), z3.And(d.has(sp.name(j)), _is_selection(sp, d.get(sp.name(j)), j, z3.IntVal(0)))),
+                                          patterns=[sp.name(j)])),
+    ]
+
+
+@register
+class ComputeVariableIndices(Contract):
+    """Flat indices: for the j-th variable, offset(j) + each selected component, offset(j) = sum of the FULL sizes of the variables before it."""
+
+    targets = (DJA + "._compute_variable_indices",)
+    prop = ("C16",)
+    c16 = True
+    flatten_offsets = cnt
+    params = {"indices": TDict(TStr, TSel), "variable_names": TList(TStr), "variable_sizes": TDict(TStr, TInt)}
+    returns = TTuple(TList(TInt), TDict(TStr, TSel))
+    loops = {0: LoopSpec(anchor="variable_names", inv=_cvi_inv, modifies=("indices_sequence", "names_to_indices"),
+                         local_types={"indices_sequence": TList(TSel), "names_to_indices": TDict(TStr, TSel)})}
+
+    def axioms(self, c):
+        return _offset_axioms(c)
+
+    def requires(self, c):
+        sp = _Spec(c)
+        j = z3.Int("j!rq")
+        k = z3.Const("k!rq", TStr.sort())
+        return [
+            # variable_sizes = compute_names_to_sizes(variable_names, ...) at both call sites
+            ("every-variable-has-a-size", FA([j], z3.Implies(z3.And(0 <= j, j < sp.n), z3.And(sp.sizes.has(sp.name(j)), sp.size(j) >= 0)), patterns=[sp.name(j)])),
+            # type invariant of list values
+            ("type:list-lengths-are-non-negative", FA([k], z3.Implies(SEL.is_sel_list(sp.indices.get(k)), TSel.list_n(sp.indices.get(k)) >= 0),
+                                                            patterns=[sp.indices.get(k)])),
+        ]
+
+    def ensures(self, c):
+        sp = _Spec(c)
+        flat, d = (C.View(c._new_heap, r, c.st) for r in c.result_value)
+        j, t = z3.Int("j!cv"), z3.Int("t!cv")
+        return [
+            ("number-of-flat-indices", flat.n == cnt(sp.n)),
+            ("flat-index = offset(variable) + component", FA([j, t], z3.Implies(z3.And(0 <= j, j < sp.n, 0 <= t, t < sp.nsel(j)),
+                                                                                       flat.elems[cnt(j) + t] == start(j) + sp.comp(j, t)))),
+            ("components-per-name", FA([j], z3.Implies(z3.And(0 <= j, j < sp.n), z3.And(d.has(sp.name(j)), _is_selection(sp, d.get(sp.name(j)), j, z3.IntVal(0)))),
+                                              patterns=[sp.name(j)])),
+        ]
